@@ -833,8 +833,52 @@ func registers(c *core.Ctx, h *vdb.Handle, G int, desc string) {
 // classifyRace folds every report in which one of the two goroutines is in the middle of
 // parsing a schema (cold cache) into one family: the known finding KF-C07-1. Any other
 // race keeps its call-site pair as signature and is reported.
+// parseFns: functions that run while a schema is being parsed for the first time.
+var parseFns = map[string]bool{
+	"gorm.io/gorm/schema.ParseWithSpecialTableName":             true,
+	"gorm.io/gorm/schema.(*Schema).guessRelation":               true,
+	"gorm.io/gorm/schema.(*Schema).parseRelation":               true,
+	"gorm.io/gorm/schema.(*Schema).setRelation":                 true,
+	"gorm.io/gorm/schema.(*Schema).buildPolymorphicRelation":    true,
+	"gorm.io/gorm/schema.(*Schema).buildMany2ManyRelation":      true,
+	"gorm.io/gorm/schema.Schema.LookUpField":                    true,
+	"gorm.io/gorm/schema.Schema.LookUpFieldByBindName":          true,
+	"gorm.io/gorm/schema.(*Schema).ParseField":                  true,
+	"gorm.io/gorm/schema.(*Schema).newField":                    true,
+	"gorm.io/gorm/schema.(*Field).setupValuerAndSetter":         true,
+	"gorm.io/gorm/schema.(*Schema).ParseCheckConstraints":       true,
+	"gorm.io/gorm/schema.(*Relationship).ParseConstraint":       true,
+	"gorm.io/gorm/schema.getOrParse":                            true,
+	"gorm.io/gorm/schema.(*Schema).parseFieldIndexes":           true,
+	"gorm.io/gorm/schema.(*Schema).ParseIndexes":                true,
+	"gorm.io/gorm/schema.(*Schema).ParseUniqueConstraints":      true,
+	"gorm.io/gorm/schema.(*Schema).LookIndex":                   true,
+	"gorm.io/gorm/schema.(*Relationships).String":               false,
+	"gorm.io/gorm/schema.(*Schema).MakeSlice":                   false,
+	"gorm.io/gorm/schema.(*Schema).LookUpFieldByBindName.func1": false,
+}
+
+// knownParsePairs: parser-against-parser races observed on the pinned tree (KF-C07-1): two goroutines
+// parsing mutually related models write and read each other's half-built schemas. The set was identical in
+// two thorough runs (8 000 cold starts); a pair of parser functions outside it is a different defect.
+var knownParsePairs = map[[2]string]bool{
+	{"gorm.io/gorm/schema.(*Schema).buildPolymorphicRelation", "gorm.io/gorm/schema.(*Schema).buildPolymorphicRelation"}: true,
+	{"gorm.io/gorm/schema.(*Schema).buildPolymorphicRelation", "gorm.io/gorm/schema.ParseWithSpecialTableName"}:          true,
+	{"gorm.io/gorm/schema.(*Schema).guessRelation", "gorm.io/gorm/schema.(*Schema).guessRelation"}:                       true,
+	{"gorm.io/gorm/schema.(*Schema).guessRelation", "gorm.io/gorm/schema.(*Schema).parseRelation"}:                       true,
+	{"gorm.io/gorm/schema.(*Schema).guessRelation", "gorm.io/gorm/schema.ParseWithSpecialTableName"}:                     true,
+	{"gorm.io/gorm/schema.(*Schema).parseRelation", "gorm.io/gorm/schema.(*Schema).setRelation"}:                         true,
+	{"gorm.io/gorm/schema.ParseWithSpecialTableName", "gorm.io/gorm/schema.Schema.LookUpField"}:                          true,
+	{"gorm.io/gorm/schema.ParseWithSpecialTableName", "gorm.io/gorm/schema.Schema.LookUpFieldByBindName"}:                true,
+}
+
+// classifyRace: the known finding KF-C07-1 covers (a) a goroutine that uses a schema while another one is
+// still parsing it (one access in a parser function, the other one anywhere outside the parser) and (b)
+// the parser-against-parser pairs listed above. Every other race keeps its call-site pair as signature
+// and is reported - also a new pair of parser functions.
 func classifyRace(report, sig string) string {
 	// only the stacks of the two conflicting accesses count (not where the goroutines were created)
+	inParse := false
 	for _, blk := range strings.Split(report, "\n\n") {
 		head := strings.TrimSpace(blk)
 		if !(strings.HasPrefix(head, "WARNING: DATA RACE") || strings.HasPrefix(head, "Write at") || strings.HasPrefix(head, "Read at") ||
@@ -842,14 +886,38 @@ func classifyRace(report, sig string) string {
 			continue
 		}
 		if strings.Contains(blk, "gorm.io/gorm/schema.ParseWithSpecialTableName()") || strings.Contains(blk, "gorm.io/gorm/schema.getOrParse()") {
-			return "race:schema-cold-parse"
+			inParse = true
 		}
 	}
-	return sig
+	if !inParse {
+		return sig
+	}
+	fns := strings.Split(strings.TrimPrefix(sig, "race:"), "<>")
+	if len(fns) != 2 {
+		return "race:schema-cold-parse"
+	}
+	a, b := fns[0], fns[1]
+	if a > b {
+		a, b = b, a
+	}
+	if parseFns[a] && parseFns[b] && !knownParsePairs[[2]string{a, b}] {
+		return "race:cold-parse-new-pair:" + a + "<>" + b
+	}
+	return "race:schema-cold-parse"
 }
 
 func postChild(dir string, batch int, res *core.Result) {
-	core.ScanRaceLogs(dir, res, classifyRace)
+	raw := map[string]int{}
+	core.ScanRaceLogs(dir, res, func(report, sig string) string {
+		cl := classifyRace(report, sig)
+		if cl != sig {
+			raw[sig]++
+		}
+		return cl
+	})
+	for sig, n := range raw {
+		res.Counts["coldparse_pair "+strings.TrimPrefix(sig, "race:")] += int64(n)
+	}
 }
 
 var Engine = &core.Engine{
